@@ -7,7 +7,7 @@ import traceback
 
 from vlib import specgen as G, cosim, svsim, svselfcheck
 
-TR_KNOBS = {"widths": [1, 2, 3, 4, 5, 7, 8, 9, 16, 31, 32, 33, 63, 64], "avoid_const_ops": True, "p_freevar": 0.25, "p_tmp": 0.25, "p_nested_slice": 0.3, "p_tmp_chain": 0.4, "p_vsl": 0.2, "p_lambda": 0.25, "p_for": 0.6, "p_ite_const": 0.4, "p_list2d": 0.4, "p_list_struct": 0.5, "p_cast": 0.25}
+TR_KNOBS = {"widths": [1, 2, 3, 4, 5, 7, 8, 9, 16, 31, 32, 33, 63, 64], "avoid_const_ops": True, "p_freevar": 0.25, "p_tmp": 0.25, "p_const_struct": 0.35, "p_nested_slice": 0.3, "p_tmp_chain": 0.4, "p_vsl": 0.2, "p_lambda": 0.25, "p_for": 0.6, "p_ite_const": 0.4, "p_list2d": 0.4, "p_list_struct": 0.5, "p_cast": 0.25}
 
 
 def random_inputs(rng, cs, reset):
@@ -24,7 +24,60 @@ def random_inputs(rng, cs, reset):
   return app
 
 
-def judge_text(sh, backend, top, what, src, case, mech_fn, extra_steps=None, ncyc=20, rng=None, count_key="programs"):
+def eval_const_concat(txt):
+  """value and width of a (nested) concatenation of sized decimal literals  { 3'd5, { 4'd3, 4'd2 } }  (None if anything else)"""
+  import re as _re
+  toks = _re.findall(r"\d+'d\d+|[{},]|\S", txt)
+  pos = [0]
+  def item():
+    t = toks[pos[0]]
+    if t == "{":
+      pos[0] += 1
+      v, w = 0, 0
+      while True:
+        r = item()
+        if r is None: return None
+        v = (v << r[1]) | r[0]; w += r[1]
+        t2 = toks[pos[0]]; pos[0] += 1
+        if t2 == "}": return v, w
+        if t2 != ",": return None
+    m = _re.fullmatch(r"(\d+)'d(\d+)", t)
+    if not m: return None
+    pos[0] += 1
+    return int(m.group(2)) & ((1 << int(m.group(1))) - 1), int(m.group(1))
+  try:
+    r = item()
+    return r if r is not None and pos[0] == len(toks) else None
+  except IndexError:
+    return None
+
+
+def const_struct_hook(sh, design, src, case, mech_fn=None):
+  """-> text hook: every struct constant the design ties to a signal is emitted as a constant concatenation with exactly the
+  constant's packed value (checked on the text itself: independent of the driver analysis of the surrounding declarations)"""
+  import re as _re
+  expect = {}
+  for cls in design["classes"].values():
+    for dst, sv in cls["connects"]:
+      if "name" in sv and not dst["steps"] and "[" not in dst["path"]:
+        expect.setdefault(dst["path"].replace(".", "__"), set()).add((sv["const"], dst["w"]))
+  def hook(text):
+    if not expect: return True
+    for m in _re.finditer(r"assign\s+(\w+)\s*=\s*(\{.*\})\s*;", text):
+      nm = m.group(1)
+      if nm not in expect: continue
+      r = eval_const_concat(m.group(2))
+      if r is None: continue
+      sh.count("struct_constants_evaluated_in_text")
+      if r not in expect[nm]:
+        sh.violation("struct-constant-emitted-with-another-value", {"signal": nm, "emitted": m.group(0)[:300], "emitted_value": hex(r[0]), "emitted_width": r[1],
+                     "expected_one_of": sorted((hex(v), w) for v, w in expect[nm]), "source": src}, case=case)
+        return False
+    return True
+  return hook
+
+
+def judge_text(sh, backend, top, what, src, case, mech_fn, extra_steps=None, ncyc=20, rng=None, count_key="programs", text_hook=None):
   """top: elaborated PyMTL component.  returns True if co-simulated to the last cycle without violation"""
   rng = rng or random.Random(0)
   hetero = False
@@ -56,6 +109,8 @@ def judge_text(sh, backend, top, what, src, case, mech_fn, extra_steps=None, ncy
   except OSError:
     pass
   sh.count("texts_translated")
+  if text_hook is not None and not text_hook(text):
+    return False
   try:
     cs = cosim.CoSim(top, backend, text, topmod)
   except svsim.SVError as e:
@@ -200,7 +255,8 @@ def specgen_stream(sh, backend, n, knobs_fn, mech_fn, tag, count="generated_desi
       top = getattr(mod, d["top"])(); top.elaborate()
       def mech(kind, w, d=d):
         return mech_fn(kind, w, design=d) if mech_fn else None
-      r = judge_text(sh, backend, top, tag, src, (tag, case), mech, ncyc=rng.randrange(12, 30), rng=rng)
+      r = judge_text(sh, backend, top, tag, src, (tag, case), mech, ncyc=rng.randrange(12, 30), rng=rng,
+                     text_hook=const_struct_hook(sh, d, src, (tag, case)))
       if r:
         sh.count(count); sh.fp(src)
         if case < 1 and tag == "gen":
